@@ -485,7 +485,6 @@ func VerifHarness_C01_O2b() {
 	verifReach("end")
 }
 
-
 // O7: the fields of a block derived from a decided round depend only on the
 // famous witnesses (same obligation as C18/O2: a timestamp computed from all
 // known witnesses would differ between partial views).
@@ -507,8 +506,43 @@ func VerifHarness_C01_O4() {
 			R = 3
 		}
 	}
-	vn := verifNewNet(n, 100)
+	verifRoundReceived(n, n, R)
+}
+
+// O4b: round-received across a validator-set change: the event's own round 0
+// has n0 validators, the candidate rounds 1.. have one validator less or more
+// (different supermajorities); the thresholds are those of the CANDIDATE round.
+func VerifHarness_C01_O4b() {
+	// the two smallest changes that move the supermajority: 3 -> 2 validators
+	// (3 -> 2 votes) and 4 -> 5 validators (3 -> 4 votes)
+	got := false
+	if verifChoice("change", 2) == 0 {
+		got = verifRoundReceived(3, 2, 2)
+	} else {
+		got = verifRoundReceived(4, 5, 1)
+	}
+	if got {
+		verifReach("received-across-a-set-change")
+	}
+}
+
+func verifRoundReceived(n0, n, R int) bool {
+	vn := verifNewNet(n0, 100)
 	h := vn.h
+	if n < n0 {
+		if err := h.Store.SetPeerSet(1, vn.set.WithRemovedPeer(vn.peers[n0-1])); err != nil {
+			panic(err)
+		}
+	} else if n > n0 {
+		if err := h.Store.SetPeerSet(1, vn.set.WithNewPeer(verifPeerN(9))); err != nil {
+			panic(err)
+		}
+	}
+	// witnesses of the candidate rounds: validators that are in both sets
+	m := n
+	if n0 < m {
+		m = n0
+	}
 	verifAbstractEvent(vn, "x", 0, 5)
 	h.roundCache.Add("x", 0)
 	h.UndeterminedEvents = []string{"x"}
@@ -519,9 +553,9 @@ func VerifHarness_C01_O4() {
 	sees := make([][]bool, R+1)
 	for r := 1; r <= R; r++ {
 		ri := NewRoundInfo()
-		fame[r] = make([]int, n)
-		sees[r] = make([]bool, n)
-		for j := 0; j < n; j++ {
+		fame[r] = make([]int, m)
+		sees[r] = make([]bool, m)
+		for j := 0; j < m; j++ {
 			name := fmt.Sprintf("w%d_%d", r, j)
 			w := verifAbstractEvent(vn, name, j, 10*r)
 			f := verifNondetInt(fmt.Sprintf("fame%d_%d", r, j))
@@ -541,7 +575,7 @@ func VerifHarness_C01_O4() {
 	stopped := false
 	for i := 1; i <= R; i++ {
 		dec, undec, fam, famSee := 0, 0, 0, 0
-		for j := 0; j < n; j++ {
+		for j := 0; j < m; j++ {
 			if fame[i][j] == 0 {
 				undec++
 			} else {
@@ -584,6 +618,7 @@ func VerifHarness_C01_O4() {
 		verifAssert("recorded-exactly-once", total == 1)
 	}
 	verifReach("end")
+	return want > 0
 }
 
 // O2c: coin rounds.  Four validators, rounds 0..5, one witness per validator
